@@ -273,7 +273,7 @@ class C19(Check):
         else:
             sched = Sched(recorded=recorded, step_cap=10 ** 7)
         ctx.case["policy"] = pol_json
-        if ctx.tier == "thorough" and not ctx.replay and src.chance(0.5):
+        if ctx.tier == "thorough" and not ctx.replay and (src.chance(0.5) or getattr(self, "warming", False)):
             ctx.case["opcode"] = True
         if ctx.case_in and ctx.case_in.get("opcode"):
             ctx.case["opcode"] = True
